@@ -16,11 +16,12 @@ pure-Python logic of _df_fillna, every pandas / numpy operation being an uninter
                returned value G[len(methods)]); for one and two methods spelled out
   df_fillna    forwards (df, method, axis, limit) to _df_fillna
   frame        _df_fillna / df_fillna never write into the object they were given (pyvc/own.py)
+  _nona / nona the value mask (isnan / isinf / ==) is reduced with .min(axis = 1) until one-dimensional (a frame row goes only when every column
+               matches; loop invariant with ghost reduction count, variant = number of dimensions), an empty pandas object is returned as it is,
+               edge = 1 / -1 only trims after the last / before the first kept label via df_slice with closed brackets
 Path precondition of the loop obligations: limit is not a negative number (the backward-interpolation branch rebinds `params` for the
-following steps; executed for one step only).  Assumed: as_list, recursion of _df_fillna / df_fillna by name.
-  _nona / nona the value mask (isnan / isinf / ==) is reduced with .min(axis = 1) until one-dimensional (a frame row goes only when every column matches;
-               loop invariant with ghost reduction count, variant = number of dimensions), an empty pandas object is returned as it is, edge = 1 / -1
-               only trims after the last / before the first kept label via df_slice with closed brackets
+following steps; executed for one step only).  Assumed: as_list, recursion of _df_fillna / df_fillna / df_slice by name; numpy fact
+"x.min(axis = 1) has one dimension less than x" (termination of the mask reduction).
 Bounded only: what the pandas operations compute, @loop lifting over containers.
 """
 import ast
